@@ -494,3 +494,45 @@ func ShapeByName(n string) *Shape {
 	}
 	return nil
 }
+
+// RegionData is one populated guest-physical range as a consumer of the regions would measure it.
+type RegionData struct {
+	Base, Size uint64
+	Data       []byte // nil = zeros
+	Extend     bool
+}
+
+// DigestRegions runs the model's MEM.PAGE.ADD / MR.EXTEND record stream over already materialised
+// regions (the regions an Extract* call returned), page by page in the given order.
+func DigestRegions(regs []RegionData) ([48]byte, error) {
+	var out [48]byte
+	h := sha512.New384()
+	zero := make([]byte, 256)
+	for k, r := range regs {
+		if r.Extend && r.Data != nil && uint64(len(r.Data)) != r.Size {
+			return out, fmt.Errorf("region %d: %d data bytes for %d bytes of memory", k, len(r.Data), r.Size)
+		}
+		for p := uint64(0); p < r.Size; p += Page {
+			var rec [128]byte
+			copy(rec[:], "MEM.PAGE.ADD")
+			binary.LittleEndian.PutUint64(rec[16:], r.Base+p)
+			h.Write(rec[:])
+			if !r.Extend {
+				continue
+			}
+			for c := uint64(0); c < Page; c += 256 {
+				var x [128]byte
+				copy(x[:], "MR.EXTEND")
+				binary.LittleEndian.PutUint64(x[16:], r.Base+p+c)
+				h.Write(x[:])
+				if r.Data == nil {
+					h.Write(zero)
+				} else {
+					h.Write(r.Data[p+c : p+c+256])
+				}
+			}
+		}
+	}
+	copy(out[:], h.Sum(nil))
+	return out, nil
+}
